@@ -176,6 +176,17 @@ func extractor() utils.SourceExtractor {
 	return ex
 }
 
+// weightedExtractor: the source of the connection limiter charges every request SEVEN connections (the interface
+// lets an extractor return any amount; "usually 1"): whatever is charged when a request arrives is given back when
+// it has returned, so a limiter that serves its requests one after the other never reaches its limit.
+func weightedExtractor() utils.SourceExtractor {
+	ex := extractor()
+	return utils.ExtractorFunc(func(r *http.Request) (string, int64, error) {
+		tok, _, err := ex.Extract(r)
+		return tok, 7, err
+	})
+}
+
 // build wraps h with the middlewares, outermost first.
 func build(cfg stackCfg, h http.Handler) (http.Handler, error) {
 	cur := h
@@ -204,9 +215,9 @@ func build(cfg stackCfg, h http.Handler) (http.Handler, error) {
 				limit = 0
 			}
 			if cfg.verbose {
-				cur, err = connlimit.New(cur, extractor(), limit, connlimit.Verbose(true), connlimit.Logger(lib.FormatLogger{}))
+				cur, err = connlimit.New(cur, weightedExtractor(), limit, connlimit.Verbose(true), connlimit.Logger(lib.FormatLogger{}))
 			} else {
-				cur, err = connlimit.New(cur, extractor(), limit)
+				cur, err = connlimit.New(cur, weightedExtractor(), limit)
 			}
 		case "ratelimit":
 			rs := ratelimit.NewRateSet()
